@@ -622,6 +622,16 @@ fn build_tensor<E: 'static, const D: usize>(
     leaf: &'static mut Tensor<E, D>,
     ads: &[TAd],
 ) -> Result<BoxT<E, D>, String> {
+    build_tensor_with(leaf, ads, true)
+}
+
+/// `panicking`: use the panicking constructors (`TensorAccess::from`, `TensorTranspose::from`)
+/// instead of the fallible ones (`try_from`); both must accept and reject the same requests.
+fn build_tensor_with<E: 'static, const D: usize>(
+    leaf: &'static mut Tensor<E, D>,
+    ads: &[TAd],
+    panicking: bool,
+) -> Result<BoxT<E, D>, String> {
     let mut src: BoxT<E, D> = Box::new(leaf);
     for ad in ads {
         src = match ad {
@@ -679,10 +689,18 @@ fn build_tensor<E: 'static, const D: usize>(
                     return Err("reject".into());
                 }
                 let names: [&'static str; D] = names_array(names);
-                match catch(move || TensorAccess::try_from(src, names)) {
-                    Ok(Ok(r)) => Box::new(r),
-                    Ok(Err(_)) => return Err("reject".into()),
-                    Err(k) => return Err(panic_str(k)),
+                if panicking {
+                    match catch(move || TensorAccess::from(src, names)) {
+                        Ok(r) => Box::new(r),
+                        Err(PanicKind::Explicit) => return Err("reject".into()),
+                        Err(k) => return Err(panic_str(k)),
+                    }
+                } else {
+                    match catch(move || TensorAccess::try_from(src, names)) {
+                        Ok(Ok(r)) => Box::new(r),
+                        Ok(Err(_)) => return Err("reject".into()),
+                        Err(k) => return Err(panic_str(k)),
+                    }
                 }
             }
             TAd::Transpose(names) => {
@@ -690,10 +708,18 @@ fn build_tensor<E: 'static, const D: usize>(
                     return Err("reject".into());
                 }
                 let names: [&'static str; D] = names_array(names);
-                match catch(move || TensorTranspose::try_from(src, names)) {
-                    Ok(Ok(r)) => Box::new(r),
-                    Ok(Err(_)) => return Err("reject".into()),
-                    Err(k) => return Err(panic_str(k)),
+                if panicking {
+                    match catch(move || TensorTranspose::from(src, names)) {
+                        Ok(r) => Box::new(r),
+                        Err(PanicKind::Explicit) => return Err("reject".into()),
+                        Err(k) => return Err(panic_str(k)),
+                    }
+                } else {
+                    match catch(move || TensorTranspose::try_from(src, names)) {
+                        Ok(Ok(r)) => Box::new(r),
+                        Ok(Err(_)) => return Err("reject".into()),
+                        Err(k) => return Err(panic_str(k)),
+                    }
                 }
             }
         };
@@ -1237,7 +1263,7 @@ impl Runner {
                         Err(_) => "reject".to_string(),
                         Ok(t) => {
                             let leaf = Leaf::new(t);
-                            let r = match build_tensor(unsafe { leaf.lend() }, &ads) {
+                            let r = match build_tensor_with(unsafe { leaf.lend() }, &ads, false) {
                                 Ok(src) => format!("ok shape={}", show_shape(&src.view_shape())),
                                 Err(e) => e,
                             };
